@@ -86,7 +86,8 @@ def astropy_tabular_data(*args, **kwargs):
             try:
                 c = c.filled(fill_value=np.nan)
             except (ValueError, TypeError):  # assigning nan to integer dtype
-                c = c.filled(fill_value=-1)
+                # Note that -1 is not a valid value for unsigned integers
+                c = c.filled(fill_value=0 if c.dtype.kind == 'u' else -1)
 
         nc = Component.autotyped(c, units=u)
         result.add_component(nc, column_name)
